@@ -99,10 +99,10 @@ func (s *Servers) Issues() []string {
 // parties
 
 type Params struct {
-	N         int   `json:"n"`
-	T         int   `json:"t"`
-	PhaseLen  int64 `json:"phase_len"`
-	Fork      bool  `json:"fork"`       // check-in update fork active from the first block
+	N          int    `json:"n"`
+	T          int    `json:"t"`
+	PhaseLen   int64  `json:"phase_len"`
+	Fork       bool   `json:"fork"`        // check-in update fork active from the first block
 	StartDelta uint64 `json:"start_delta"` // DKGStartBlockDelta
 }
 
